@@ -360,7 +360,24 @@ func (g *gen) binaryRun(p *binProc, f binFlags, seqql bool, nDocs int) int {
 			map[string]any{"flags": flagsJSON, "docs": len(docs)})
 		return 0
 	}
-	n := 0
+	// the store indexes a bulk in the background: wait until every document answers to its uid
+	settled := false
+	for deadline := time.Now().Add(15 * time.Second); !settled && time.Now().Before(deadline); {
+		settled = true
+		for _, d := range docs {
+			uids, errText := p.search("uid:" + d.uid)
+			if errText != "" || !uids[d.uid] {
+				settled = false
+				time.Sleep(100 * time.Millisecond)
+				break
+			}
+		}
+	}
+	if !settled {
+		g.w.Count("binary:skipped-not-settled")
+		return 0
+	}
+	n, retries := 0, 0
 	ask := func(d bdoc, q, what string, want bool) {
 		n++
 		g.w.Evals(1)
@@ -371,6 +388,13 @@ func (g *gen) binaryRun(p *binProc, f binFlags, seqql bool, nDocs int) int {
 			return
 		}
 		got := errText == "" && uids[d.uid]
+		if got != want && want && retries < 5 {
+			// once more after a pause (a few times per run): only an answer that stays wrong is reported
+			retries++
+			time.Sleep(300 * time.Millisecond)
+			uids, errText = p.search(q)
+			got = errText == "" && uids[d.uid]
+		}
 		if got != want {
 			fp, msg := "bin-e2e-not-found", "real binary: the query made from the document's own "+what+" does not return the document"
 			if !want {
